@@ -72,7 +72,7 @@ def gen_plan(rng, tier, run):
     ops = []
     for _ in range(rng.randint(3, 10)):
         m = rng.choice(READ_MODES + ["-d", "-d", "-d", "-D", "-j", "-j", "-jo", "-jo", "-jE", "-jEc", "-jc"])
-        op = {"mode": m, "opts": list(rng.choice(common.SELECTION_SETS)),
+        op = {"mode": m, "opts": common.gen_selection(rng),
               "order": {"policy": rng.choice(["perm", "perm", "asc", "desc"]), "key": rng.randrange(1 << 30)}}
         if rng.random() < 0.2:
             op["opts"].append("-P")
